@@ -52,3 +52,25 @@ Theorem C14_patch_merge_eq_differ :
     merge_by_patches collide base left right = merge_by_differ collide base left right.
 Proof. exact patch_merge_eq_differ. Qed.
 Print Assumptions C14_patch_merge_eq_differ.
+
+Theorem C14_range_patches_stand_for_point_changes :
+  forall (collide : collide_t) (base left right : dict N),
+    sorted base -> sorted left -> sorted right ->
+    forall ps : list patch,
+      Forall (patch_ok collide base left right) ps ->
+      (forall k to, lookup k (send_patches collide (diff base left) (diff base right)) = Some to -> covered ps k = true) ->
+      apply_stream ps left = merge_by_patches collide base left right.
+Proof. exact range_patches_sound. Qed.
+Print Assumptions C14_range_patches_stand_for_point_changes.
+
+Theorem C14_range_patch_is_its_points :
+  forall (collide : collide_t) (base left right : dict N),
+    sorted base -> sorted left -> sorted right ->
+    forall lo hi c k,
+      patch_ok collide base left right (PRange lo hi c) ->
+      lookup k (apply_patch (PRange lo hi c) left) =
+      if in_range lo hi k
+      then lookup k (apply_patches (send_patches collide (diff base left) (diff base right)) left)
+      else lookup k left.
+Proof. exact range_patch_is_its_points. Qed.
+Print Assumptions C14_range_patch_is_its_points.
